@@ -79,6 +79,10 @@ def step (ts : List String) : String :=
       | some r => "ok " ++ showRat r
       | none => "none"
     | _, _ => "bad-op"
+  | ["hkdispatch", m] =>
+    match PgVerif.Model.Micro.dispatch m with
+    | some (ry, cy) => s!"ok {ry} {cy}"
+    | none => "none"
   | ["mg", b, g] =>
     match meniscusGeometry.lookup (b, g) with
     | some r => "ok " ++ r
